@@ -61,6 +61,10 @@ func H13n() {
 func H13b() {
 	r := h07Recipe()
 	r.Length = vLen("length", 1, vParam("L", 3))
+	if vParam("bigL", 0) == 1 {
+		// alphabet^Length beyond float64 range
+		r.Length = []int{171, 172, 1000}[vChoice("biglength", 3)]
+	}
 	savedT, savedF := MaxTrials, MaxFailRate
 	defer func() { MaxTrials, MaxFailRate = savedT, savedF }()
 	MaxTrials = []int{1, 3, 200}[vChoice("maxtrials", 3)]
@@ -90,18 +94,30 @@ func H13b() {
 		exact = math.Exp2(h07Log2(valid) - float64(r.Length)*math.Log2(float64(len(alpha))))
 	}
 	vSample("exact-success-probability", exact)
-	vAssert(math.Abs(float64(sp)-exact) <= 1e-3*exact+1e-7, "SuccessProbability() is not the exact fraction of candidates that satisfy the requirements")
-	fail := math.Pow(1-exact, float64(MaxTrials))
-	if fail <= MaxFailRate/4 {
+	// SuccessProbability is 2^(difference of two float32 entropies): its relative
+	// error is bounded by ln2 times the float32 resolution at those entropies.
+	// The decision is asserted only where it is the same for every value within
+	// that resolution (the rest is float rounding territory).
+	entBits := float64(r.Length) * math.Log2(float64(len(alpha)))
+	delta := 1.4 * float64(math.Float32frombits(math.Float32bits(float32(entBits))+1)-float32(entBits))
+	if delta < 1e-3 {
+		delta = 1e-3
+	}
+	vAssert(math.Abs(float64(sp)-exact) <= delta*exact+1e-7, "SuccessProbability() is not the exact fraction of candidates that satisfy the requirements")
+	pHi := math.Min(1, exact*(1+delta))
+	pLo := exact * (1 - delta)
+	failLo := math.Pow(1-pHi, float64(MaxTrials))
+	failHi := math.Pow(1-pLo, float64(MaxTrials))
+	if failHi <= MaxFailRate/4 {
 		vAssert(acceptable, "a recipe whose failure chance is comfortably below the limit is refused")
 		vReach("comfortably-acceptable")
 	}
-	if fail >= 4*MaxFailRate {
+	if failLo >= 4*MaxFailRate {
 		vAssert(!acceptable, "a recipe whose failure chance is far above the limit is accepted")
 		vReach("clearly-unacceptable")
 	}
 	// Generate refuses before drawing exactly when the pre-flight says so
-	if MaxTrials <= 3 {
+	if MaxTrials <= 3 && r.Length <= 8 {
 		vSummary(true)
 		var p *Password
 		var err error
